@@ -558,9 +558,10 @@ def canon_equal(a, b, float_tol=False):
                 return False
             if a["dtype"].startswith("complex"):
                 return a["vals"] == b["vals"]
+            rel = 1e-5 if a["dtype"] == "float32" else 1e-9       # "equal up to floating-point rounding" of the result's precision
             for x, y in zip(a["vals"], b["vals"]):
                 fx, fy = float.fromhex(x), float.fromhex(y)
-                if fx != fy and not (abs(fx - fy) <= 1e-9 * max(1.0, abs(fx), abs(fy))) and not (fx != fx and fy != fy):
+                if fx != fy and not (abs(fx - fy) <= rel * max(1.0, abs(fx), abs(fy))) and not (fx != fx and fy != fy):
                     return False
             return True
         if "f" in a and float_tol:
